@@ -14,7 +14,7 @@ func runC02(r *Run) {
 	r.Explain = "Static decision of structural necessary conditions of C02 (share accounting): (R1) in every share-moving operation the operator's TotalShare and the delegator's UndelegatableShare move by the same symbol, and OperatorShare moves by that symbol exactly under the association test; (R2) the delegator list is maintained with the shares (append on delegation, delete when the share reaches zero, all cleared when a pool is slashed to zero together with the share totals); (R3) rounding direction: shares minted with a truncating division, tokens redeemed truncated, the last share takes the whole pool, sub-unit dust is swept."
 	r.NotDec = []string{"the numeric bounds x-1 <= redeemed <= x and the one-unit effect on co-delegators (arithmetic over all exchange rates)", "whole-domain behaviour of the conversion functions"}
 	r.Assume = []string{"LegacyDec.QuoInt / TruncateInt truncate toward zero"}
-	r.rule("C02.R1", "share delta balance: TotalShare and UndelegatableShare move by the same symbol; OperatorShare moves by it iff the staker is associated with that operator; associate/dissociate move exactly the staker's existing share", 6)
+	r.rule("C02.R1", "share delta balance: TotalShare and UndelegatableShare move by the same symbol; OperatorShare moves by it iff the staker is associated with that operator; associate/dissociate move exactly the staker's existing share", 8)
 	r.rule("C02.R2", "delegator-list maintenance with the shares", 5)
 	r.rule("C02.R3", "rounding direction and last-share rules", 5)
 
@@ -134,6 +134,44 @@ func runC02(r *Run) {
 			}
 			r.check(ok && os.Sign == spec.sign && strings.HasSuffix(os.Sym, ".UndelegatableShare") && condOK && len(ts) == 1, "C02.R1", spec.fn+"|self-share", v.pos(v.Decl),
 				"(dis)association moves exactly the staker's existing share of the matching operator into/out of OperatorShare", spec.fn+" deltas: "+renderTerms(ts))
+			// every delegation of the staker is visited: the callback asks to stop only together with an error
+			okAll, bad := true, ""
+			nCb := 0
+			for _, c := range v.CallsNamed("IterateDelegationsForStaker") {
+				for _, a := range c.Args {
+					for _, d := range v.resolveDefs(a, 0) {
+						fl, isLit := stripParens(d).(*ast.FuncLit)
+						if !isLit {
+							continue
+						}
+						nCb++
+						ast.Inspect(fl.Body, func(n ast.Node) bool {
+							if inner, ok := n.(*ast.FuncLit); ok && inner != fl {
+								return false
+							}
+							rs, ok := n.(*ast.ReturnStmt)
+							if !ok || len(rs.Results) != 2 {
+								return true
+							}
+							if cv := v.constOf(rs.Results[0]); cv != nil && cv.ExactString() == "false" {
+								return true
+							}
+							// stop == true (or unknown): the error must be known non-nil here
+							errNonNil := false
+							for _, f := range v.FactsAt(rs, false) {
+								if b, ok := stripParens(f.Atom).(*ast.BinaryExpr); ok && f.Truth && b.Op.String() == "!=" && isNilIdent(v.Info, b.Y) && sameExpr(b.X, rs.Results[1]) {
+									errNonNil = true
+								}
+							}
+							if !errNonNil {
+								okAll, bad = false, v.pos(rs)
+							}
+							return true
+						})
+					}
+				}
+			}
+			r.check(okAll && nCb == 1, "C02.R1", spec.fn+"|every-asset", v.pos(v.Decl), "the share of every asset delegated to the operator is moved: the iteration over the staker's delegations stops early only on an error", spec.fn+": the callback can stop the iteration without an error at "+bad+" -- only the first matching asset's share is moved, the later undelegation of another asset underflows OperatorShare and is rejected")
 		}
 	}
 	// ---- R2
